@@ -606,34 +606,89 @@ example : wrapperCallWith 1 (.add .base (.lit 1)) E { numRet := 1, params := [.p
 
 /-! ### the wrapper of a method: the receiver -/
 
-/-- **The receiver is bound when the wrapper is made** (`wrapRecvAtCreation`, regenerated; repair 3081633): for every method
-    shape (any results, any further parameters, any locals), every body and every argument list, calling the wrapper of a
-    method — a method value `mv := x.M` called later or handed to the host, `defer x.M(…)`, `go x.M(…)` — is the in-script
-    call with the receiver the expression had WHEN THE WRAPPER WAS MADE, whatever the variable holds at the time of the call. -/
+/-- the receiver the wrapper stores, spelled out for the current source: a receiver read from the script is the one reached
+    when the wrapper was made, the value held by an interface is reached when the wrapper is called -/
+theorem wrapperRecv_rule (wantsPtr : Bool) (hMade hNow : Nat → Rep) (src : RecvSrc) :
+    wrapperRecvY E wantsPtr hMade hNow src = recvSpec wantsPtr hMade hNow src := by
+  cases src <;> rfl
+
+/-- **The receiver of a method wrapper** (`wrapRecvAtCreation`, `wrapRecvHeldAtCall`, regenerated; repairs 3081633 and
+    32d4f06): for every method shape (any results, any further parameters, any locals), every body, every argument list,
+    value or pointer receiver, every state of the heap at the two moments and either kind of receiver record, calling the
+    wrapper is the in-script call with the receiver Go prescribes (`recvSpec`). -/
+theorem method_wrapper_receiver (d : FnDef) (ps : List PKind) (hp : d.params = .plain :: ps)
+    (call : Rep → List Rep → List Rep) (wantsPtr : Bool) (hMade hNow : Nat → Rep) (src : RecvSrc) (ins : List Rep) :
+    methodWrapperCall E d call wantsPtr hMade hNow src ins = innerCall d call (recvSpec wantsPtr hMade hNow src :: ins) := by
+  have hlen : ∀ r : Rep, d.numRet + 1 + ps.length ≤ (setAt (List.replicate d.frameLen Rep.nil) d.numRet r).length := by
+    intro r; simp [setAt, FnDef.frameLen, hp]; omega
+  rw [← wrapperRecv_rule]
+  simp only [methodWrapperCall, innerCall, hp, List.tail_cons, fillArgs, copyArg, Bool.false_and, Bool.false_eq_true, if_false]
+  have h1 : E.wrapFrameIsDefTypes = true := rfl
+  have h2 : E.wrapSkipShort = true := rfl
+  have h3 : E.wrapRcvrShift = 1 := rfl
+  have h4 : E.wrapResLo = 0 := rfl
+  have h5 : E.wrapResHi.eval 0 d.numRet = d.numRet := rfl
+  rw [h1, h2, h3, h4, h5]
+  simp only [if_true, List.drop_zero, Nat.sub_zero]
+  rw [fillArgs_skip ps ins _ (d.numRet + 1) (hlen _)]
+
+/-- **Bound when the wrapper is made** — a method value `mv := x.M` called later or handed to the host, `defer x.M(…)`,
+    `go x.M(…)`: the call runs with the receiver reached WHEN THE WRAPPER WAS MADE (a value receiver selected on a pointer: the
+    copy of `*x` taken then), whatever the variable or the heap hold at the time of the call. -/
 theorem method_wrapper_binds_receiver (d : FnDef) (ps : List PKind) (hp : d.params = .plain :: ps)
-    (call : Rep → List Rep → List Rep) (recvMade recvNow : Rep) (ins : List Rep) :
-    methodWrapperCall E d call recvMade recvNow ins = innerCall d call (recvMade :: ins) := by
-  have hlen : d.numRet + 1 + ps.length ≤ (setAt (List.replicate d.frameLen Rep.nil) d.numRet recvMade).length := by
-    simp [setAt, FnDef.frameLen, hp]; omega
-  simp only [methodWrapperCall, innerCall, E, Expected.C07.facts, IExpr.eval, if_true, List.drop_zero, Nat.sub_zero, hp,
-    List.tail_cons, fillArgs, copyArg, Bool.false_and, Bool.false_eq_true, if_false]
-  rw [fillArgs_skip ps ins _ (d.numRet + 1) hlen]
+    (call : Rep → List Rep → List Rep) (wantsPtr : Bool) (hMade hNow : Nat → Rep) (recvMade recvNow : Rep) (ins : List Rep) :
+    methodWrapperCall E d call wantsPtr hMade hNow (.var recvMade recvNow) ins =
+      innerCall d call (bindRecvY hMade wantsPtr recvMade :: ins) :=
+  method_wrapper_receiver d ps hp call wantsPtr hMade hNow (.var recvMade recvNow) ins
+
+/-- **Reached at each call** — the method wrappers genInterfaceWrapper builds for a conversion to a host interface
+    (`var s fmt.Stringer = p`, `sort.Sort(p)`): the receiver record is the value the interface holds (`ifaceWrapRecvHeld`), so a
+    later assignment of the converted variable (`xNow`) is not followed, and a pointer held by the interface is dereferenced
+    when the method is CALLED: a value-receiver method sees the pointee as it is then. -/
+theorem iface_wrapper_reaches_receiver (d : FnDef) (ps : List PKind) (hp : d.params = .plain :: ps)
+    (call : Rep → List Rep → List Rep) (wantsPtr : Bool) (hMade hNow : Nat → Rep) (xConv xNow : Rep) (ins : List Rep) :
+    methodWrapperCall E d call wantsPtr hMade hNow (ifaceRecvSrcY E xConv xNow) ins =
+      innerCall d call (bindRecvY hNow wantsPtr xConv :: ins) :=
+  method_wrapper_receiver d ps hp call wantsPtr hMade hNow (.held xConv) ins
 
 theorem method_wrapper_generated (d : FnDef) (ps : List PKind) (hp : d.params = .plain :: ps)
-    (call : Rep → List Rep → List Rep) (recvMade recvNow : Rep) (ins : List Rep) :
-    methodWrapperCall Generated.C07.facts d call recvMade recvNow ins = innerCall d call (recvMade :: ins) := by
-  rw [facts_tie]; exact method_wrapper_binds_receiver d ps hp call recvMade recvNow ins
+    (call : Rep → List Rep → List Rep) (wantsPtr : Bool) (hMade hNow : Nat → Rep) (src : RecvSrc) (ins : List Rep) :
+    methodWrapperCall Generated.C07.facts d call wantsPtr hMade hNow src ins =
+      innerCall d call (recvSpec wantsPtr hMade hNow src :: ins) ∧
+    ∀ xConv xNow, ifaceRecvSrcY Generated.C07.facts xConv xNow = .held xConv := by
+  rw [facts_tie]; exact ⟨method_wrapper_receiver d ps hp call wantsPtr hMade hNow src ins, fun _ _ => rfl⟩
 
 /-- a method `func (r T) Get() T { return r }` -/
 def getRecv : FnDef :=
   { numRet := 1, params := [.plain], nLocals := 0, body := fun _ fr => setAt fr 0 (fr.getD 1 .nil) }
 
+def noHeap : Nat → Rep := fun _ => .nil
+
 /-- late binding (the receiver read inside the reflect.MakeFunc literal, as before 3081633): `mv := x.Get; x = 2; mv()`
     yields 2, the contract 1 -/
 theorem late_receiver_witness :
-    methodWrapperCall { E with wrapRecvAtCreation := false } getRecv (fun _ _ => []) (.int 1) (.int 2) [] = [.int 2] ∧
-    methodWrapperCall E getRecv (fun _ _ => []) (.int 1) (.int 2) [] = [.int 1] ∧
+    methodWrapperCall { E with wrapRecvAtCreation := false } getRecv (fun _ _ => []) false noHeap noHeap (.var (.int 1) (.int 2)) [] = [.int 2] ∧
+    methodWrapperCall E getRecv (fun _ _ => []) false noHeap noHeap (.var (.int 1) (.int 2)) [] = [.int 1] ∧
     innerCall getRecv (fun _ _ => []) [.int 1] = [.int 1] := ⟨rfl, rfl, rfl⟩
+
+/-- the heap in which cell 0 holds `n` -/
+def heapWith (n : Int) : Nat → Rep := fun a => if a = 0 then .int n else .nil
+
+/-- binding at the conversion (the state between 3081633 and 32d4f06: the wrappers of an interface conversion got the converted
+    expression's node, bound when they were made): `p := &T{1}; var s I = p; *p = T{2}; s.Get()` with a value-receiver `Get`
+    yields the copy taken at the conversion (1), Go dereferences p at the call (2). Either of the two facts alone breaks it. -/
+theorem held_receiver_bound_witness :
+    methodWrapperCall { E with ifaceWrapRecvHeld := false } getRecv (fun _ _ => []) false (heapWith 1) (heapWith 2)
+      (ifaceRecvSrcY { E with ifaceWrapRecvHeld := false } (.ptr (.int 0)) (.ptr (.int 0))) [] = [.int 1] ∧
+    methodWrapperCall { E with wrapRecvHeldAtCall := false } getRecv (fun _ _ => []) false (heapWith 1) (heapWith 2)
+      (ifaceRecvSrcY E (.ptr (.int 0)) (.ptr (.int 0))) [] = [.int 1] ∧
+    methodWrapperCall E getRecv (fun _ _ => []) false (heapWith 1) (heapWith 2) (ifaceRecvSrcY E (.ptr (.int 0)) (.ptr (.int 0))) [] = [.int 2] ∧
+    innerCall getRecv (fun _ _ => []) [bindRecvY (heapWith 2) false (.ptr (.int 0))] = [.int 2] := ⟨rfl, rfl, rfl, rfl⟩
+
+/-- non-vacuity: the two kinds of record differ exactly when the heap or the variable changed in between — a method value of
+    the same pointer keeps the copy taken when it was made -/
+example : methodWrapperCall E getRecv (fun _ _ => []) false (heapWith 1) (heapWith 2) (.var (.ptr (.int 0)) (.ptr (.int 0))) [] = [.int 1] ∧
+    methodWrapperCall E getRecv (fun _ _ => []) true (heapWith 1) (heapWith 2) (.held (.ptr (.int 0))) [] = [.ptr (.int 0)] := ⟨rfl, rfl⟩
 
 /-! ### one wrapper value, nested invocations -/
 
